@@ -181,11 +181,10 @@ def rule_k3(ctx):
         if fid not in ctx.fns:
             raise AnchorMissing("%s not found" % fid)
         body = ctx.body(fid)
-        traps = [(b, body.term(b)) for b in range(body.n) if body.term(b) and body.term(b)["k"] == "assert" and
-                 (body.term(b)["kind"].startswith("Overflow") or body.term(b)["kind"] in ("DivisionByZero", "RemainderByZero")) and not body.blocks[b]["cleanup"]]
+        traps = mir.trapping_arith_sites(body)
         if traps:
-            for b, t in traps:
-                res.bad(Finding("K3", fid, "trapping arithmetic %s" % t["kind"], "the const evaluator can panic on %s" % t["kind"], t["sp"]))
+            for (b, kind, ops, sp) in traps:
+                res.bad(Finding("K3", fid, "trapping arithmetic %s" % kind.split(" on ")[0], "the const evaluator can panic on %s" % kind, sp))
         else:
             res.ok({"function": fid, "verdict": "no overflow / division Assert"})
         for variant, want in (("Add", "wrapping_add"), ("Sub", "wrapping_sub")):
